@@ -147,6 +147,7 @@ func (s *DB) updateBatchWithIncrement() error {
 		return err
 	}
 
+	verifPoint("db.size.betweenWriteAndReset")
 	s.batch.Reset()
 	s.sizeBatch = 0
 
